@@ -9,7 +9,14 @@ for f in sys.argv[1:]:
         if not m:
             continue
         pid, n, chk, rc, v, rest = m.groups()
-        res.setdefault("%s-%s" % (pid, n), {})[chk] = (int(v), "no-failing-input-found" in rest)
+        noinput = "no-failing-input-found" in rest
+        lab = l.split()[0]
+        lf = "/verif/.work/seedlogs/%s_%s.log" % (lab, chk)
+        if os.path.exists(lf):
+            vl = [x for x in open(lf) if x.startswith("VIOLATION")]
+            if vl:
+                noinput = all("no-failing-input-found" in x for x in vl)
+        res.setdefault("%s-%s" % (pid, n), {})[chk] = (int(v), noinput)
         m2 = re.search(r"replay=(\S+)", rest)
         if m2 and os.path.exists(m2.group(1)) and os.path.getsize(m2.group(1)) < 400000:
             import shutil
